@@ -109,7 +109,7 @@ class DriverError(Exception):
     pass
 
 
-def run_driver(lines):
+def run_driver(lines, strict=True):
     """Pipe request lines to the compiled Lean model driver; one answer per line."""
     if not os.path.exists(DRIVER):
         raise DriverError("driver binary missing (model did not build)")
@@ -120,7 +120,7 @@ def run_driver(lines):
     out = p.stdout.decode().split("\n")
     if out and out[-1] == "":
         out.pop()
-    if len(out) != len(lines):
+    if strict and len(out) != len(lines):
         raise DriverError("driver answered %d lines for %d requests" % (len(out), len(lines)))
     return out
 
